@@ -1,4 +1,4 @@
 SPECIFICATION Spec
 CONSTANTS
   Emit = TRUE
-INVARIANTS ClauseIffField
+INVARIANTS ClauseIffField OrderItemLaw TailLaw
